@@ -155,8 +155,12 @@ def sample_perms(rng, n, k):
 
 
 def gen_orders(tier, rng):
+    """from_dicts / merge are cheap (no YAML parsing): they carry the exhaustive sweeps; the YAML based
+    paths get every order of the sets up to 5 documents (thorough; quick: one path each, rotating) and
+    one rotating path with all 720 orders of the 6-document sets, samples otherwise"""
     quick = tier == "quick"
     cases = []
+    CHEAP, YAMLP = PATHS[:1] + PATHS[2:3], [PATHS[1]] + PATHS[3:]
 
     def add(docs, perms, paths):
         for path in paths:
@@ -164,34 +168,41 @@ def gen_orders(tier, rng):
                 cases.append({"docs": docs, "perms": part, "path": path})
 
     F = fixed_sets()
-    for name, docs in F.items():
+    for k, (name, docs) in enumerate(sorted(F.items())):
         n = len(docs)
+        main = PATHS[k % len(PATHS)]
         if quick:
             # every order through one load path (rotating), a sample through the others
-            perms = all_perms(n) if n <= 5 else sample_perms(rng, n, 120)
-            main = PATHS[sorted(F).index(name) % len(PATHS)]
-            add(docs, perms, [main])
-            for path in PATHS:
-                if path != main:
-                    add(docs, sample_perms(rng, n, 12), [path])
-        else:
+            add(docs, all_perms(n) if n <= 5 else sample_perms(rng, n, 120), [main])
+            add(docs, sample_perms(rng, n, 12), [p for p in PATHS if p != main])
+        elif n <= 5:
             add(docs, all_perms(n), PATHS)
+        else:
+            ymain = YAMLP[k % len(YAMLP)]
+            add(docs, all_perms(n), CHEAP + [ymain])
+            add(docs, sample_perms(rng, n, 120), [p for p in YAMLP if p != ymain])
     # exhaustive reference graphs on 2 and 3 documents (cycles included), every order
     for n, wg in (((2, True), (3, False)) if quick else ((2, True), (3, True))):
         for k, docs in enumerate(shapes(n, wg)):
             if quick and n == 3 and rng.randrange(3) != 0:
                 continue
-            add(docs, all_perms(n), [PATHS[k % len(PATHS)]] if quick else PATHS[:3] + [PATHS[3 + k % 3]])
+            if quick:
+                add(docs, all_perms(n), [PATHS[k % len(PATHS)]])
+            else:
+                add(docs, all_perms(n), ["from_dicts"] + ([PATHS[1 + k % 5]] if (n == 2 or k % 3 == 0) else []))
     # random layered sets
     for _ in range(60 if quick else 600):
         n = rng.randint(3, 6)
         docs = random_set(rng, n)
-        perms = all_perms(n) if (n <= 4 or not quick) else sample_perms(rng, n, 24)
-        add(docs, perms, [rng.choice(PATHS)] if quick else rng.sample(PATHS, 2))
+        if quick:
+            add(docs, all_perms(n) if n <= 4 else sample_perms(rng, n, 24), [rng.choice(PATHS)])
+        else:
+            add(docs, all_perms(n), [rng.choice(CHEAP)])
+            add(docs, all_perms(n) if n <= 4 else sample_perms(rng, n, 48), [rng.choice(YAMLP)])
     # beyond 6 documents: sampled orders (70 documents: more than one run for a merge sort)
-    for _ in range(12 if quick else 150):
+    for _ in range(12 if quick else 120):
         n = rng.choice([7, 8, 9, 10, 12, 16])
-        add(random_set(rng, n), sample_perms(rng, n, 12 if quick else 48), [rng.choice(PATHS)])
+        add(random_set(rng, n), sample_perms(rng, n, 12 if quick else 36), [rng.choice(PATHS)])
     for _ in range(1 if quick else 6):
         add(random_set(rng, 70), sample_perms(rng, 70, 4), [rng.choice(PATHS)])
     # deep chain (depth 8) with unrelated rules
